@@ -20,6 +20,8 @@ Programs are expression trees (JSON):
   ["mat", e]                  write e (checked) and go on with the same object (compaction happens in place)
   ["cat", [e1, e2, ...]]      np.concatenate
   ["rep", e, [fields]]        bnp.replace(e, field=new values ...)
+  ["after", e1, e2]           evaluate and write e1 (checked), then evaluate e2: e1 must not disturb the tables it was derived from
+All ["read", F] nodes of one program denote the same table object (one read per file and program).
 """
 import itertools
 import os
@@ -585,6 +587,10 @@ def evaluate(cx, node):
         parts = [evaluate(cx, e) for e in node[1]]
         t = real("cat", lambda: np.concatenate([p[0] for p in parts]))
         return t, [x for p in parts for x in p[1]], False
+    if k == "after":
+        t, rows, exact = evaluate(cx, node[1])
+        real("write", lambda: check_table(cx, t, rows, exact, cx_mixed(rows)))
+        return evaluate(cx, node[2])
     if k == "rep":
         t, rows, exact = evaluate(cx, node[1])
         kinds = dict(cx.spec["fields"])
@@ -603,6 +609,8 @@ def n_nodes(e):
         return 1
     if e[0] == "cat":
         return 1 + sum(n_nodes(x) for x in e[1])
+    if e[0] == "after":
+        return 1 + n_nodes(e[1]) + n_nodes(e[2])
     return 1 + n_nodes(e[1])
 
 
@@ -620,6 +628,8 @@ def replaced_fields(e):
         return set()
     if e[0] == "cat":
         return set().union(*[replaced_fields(x) for x in e[1]])
+    if e[0] == "after":
+        return replaced_fields(e[1]) | replaced_fields(e[2])
     return replaced_fields(e[1]) | (set(e[2]) if e[0] == "rep" else set())
 
 
@@ -861,6 +871,37 @@ def gen_mixed(spec, level):
         yield "concat-after-field-access:accessed-both", ["cat", [["touch", A_, f], ["idx", ["touch", B_, f], REV]]]
 
 
+def gen_isolation(spec, level, lazy_concat=True):
+    """deriving and writing a table (selection compacted in place, replacement, concatenation) must not disturb the
+    tables it was derived from: the parent / the operands are used again afterwards"""
+    singles, pairs = field_subsets(spec)
+    fss = singles if level else singles[:2]
+    ops = core_ops(NA) if level else core_ops(NA)[:4]
+    for op in ops:
+        child = ["mat", ["idx", A_, op]]
+        yield "isolation:select-then-parent", ["after", child, A_]
+        for op2 in (ops if level == 2 else [NEG, S(None, None, 2)]):
+            yield "isolation:select-then-parent", ["after", child, ["idx", A_, op2]]
+        for fs in fss:
+            yield "isolation:select-then-parent-replaced", ["after", child, ["rep", A_, fs]]
+            yield "isolation:select-then-parent-replaced", ["after", child, ["rep", ["idx", A_, NEG], fs]]
+    for fs in fss + (pairs[:3] if level else []):
+        yield "isolation:replace-then-original", ["after", ["rep", A_, fs], A_]
+        yield "isolation:replace-then-original", ["after", ["rep", A_, fs], ["idx", A_, NEG]]
+        yield "isolation:replace-then-original", ["after", ["rep", ["idx", A_, S(1, None)], fs], ["idx", A_, S(1, None)]]
+        yield "isolation:replace-then-original", ["after", ["rep", ["rep", A_, fs], fs], ["rep", A_, fs]]
+        sel = ["idx", A_, S(1, None)]
+        yield "isolation:replace-then-original", ["after", ["idx", ["rep", sel, fs], NEG], ["rep", sel, fs]]
+    cats = [["cat", [A_, B_]], ["cat", [["idx", A_, NEG], B_, A_]], ["cat", [B_, ["idx", B_, REV], A_]]]
+    for cat in cats:
+        for base in (A_, B_):
+            yield "isolation:concat-then-operand", ["after", cat, base]
+            yield "isolation:concat-then-operand", ["after", cat, ["idx", base, NEG]]
+            for fs in fss[:2]:
+                yield "isolation:concat-then-operand", ["after", cat, ["rep", base, fs]]
+                yield "isolation:concat-then-operand", ["after", ["rep", cat, fs], ["rep", ["idx", base, REV], fs]]
+
+
 def resolve_masks(e, cx):
     """["mask","alt"] placeholders (length known only from the model) -> concrete masks"""
     if not isinstance(e, list) or not e:
@@ -871,6 +912,8 @@ def resolve_masks(e, cx):
         return ["idx", inner, ["mask", [bool((i + 1) % 2) for i in range(m)]]]
     if e[0] == "cat":
         return ["cat", [resolve_masks(x, cx) for x in e[1]]]
+    if e[0] == "after":
+        return ["after", resolve_masks(e[1], cx), resolve_masks(e[2], cx)]
     if e[0] in ("idx", "touch", "mat", "rep"):
         return [e[0], resolve_masks(e[1], cx)] + e[2:]
     return e
@@ -886,6 +929,8 @@ def model_len(e, cx):
         return len(apply_model(list(range(model_len(e[1], cx))), e[2]))
     if k == "cat":
         return sum(model_len(x, cx) for x in e[1])
+    if k == "after":
+        return model_len(e[2], cx)
     return model_len(e[1], cx)
 
 
@@ -895,17 +940,25 @@ def model_len(e, cx):
 QUICK_LEVEL = {"bed": 0, "bed6": 0, "narrowPeak": 1, "vcf": 0, "vcf_noinfo": 0, "vcf2": 0, "sam": 0, "fastq": 0, "fasta2": 0, "bam": 1}
 
 
+THOROUGH_LEVEL = {"bed": 1, "bed6": 1, "narrowPeak": 2, "vcf": 1, "vcf_noinfo": 1, "vcf2": 2, "sam": 2, "fastq": 2, "fasta2": 2, "bam": 2}
+
+
 def programs(variant, tier, eol):
     spec = SPECS[variant]
     if tier == "thorough":
-        level = 2 if eol == "lf" else 1
-        if variant == "vcf":      # every read of a VCF with ##INFO lines rebuilds its classes (about 10 ms)
-            level = 1 if eol == "lf" else 0
+        level = THOROUGH_LEVEL.get(variant, 1) if eol == "lf" else 1
+        if variant == "vcf" and eol != "lf":      # every read of a VCF with ##INFO lines rebuilds its classes (about 10 ms)
+            level = 0
     else:
         level = QUICK_LEVEL.get(variant, 0) if eol == "lf" else 0
     if variant == "bam":
         yield from gen_select(level)
         yield from gen_access(spec, level)
+        for op in core_ops(NA):
+            child = ["mat", ["idx", A_, op]]
+            yield "isolation:select-then-parent", ["after", child, A_]
+            for op2 in core_ops(NA):
+                yield "isolation:select-then-parent", ["after", child, ["idx", A_, op2]]
         return
     if spec["family"] == "gtf":
         # the GTF reader is not lazy: every program goes through parse + format; a reduced enumeration is enough
@@ -926,6 +979,8 @@ def programs(variant, tier, eol):
     if not (tier == "quick" and variant == "vcf"):     # same extractor code as vcf2 / vcf_noinfo, but every read costs ~10 ms
         yield from gen_concat(level)
     yield from gen_replace(spec, level, 0 if tier == "quick" else None)
+    if eol == "lf" or tier == "thorough":
+        yield from gen_isolation(spec, level)
     if eol == "lf":
         yield from gen_mixed(spec, level)
     total = len(spec["header"]) + sum(len(l) + 1 for rec in spec["A"] for l in rec)
@@ -972,7 +1027,8 @@ def run(tier="quick", seed=0):
                   "concat_operands": "2 (18x18 pool), 3 and nested (6^3 pool), select-select-concat (64 chains)",
                   "replaced_fields": "every subset of size 1 and 2 of the replaceable fields, triples (every 7th; thorough: all), all fields",
                   "chunk_sizes": "quick 4 sizes, thorough 10 sizes per format",
-                  "levels": "quick: %r for lf, reduced for crlf; thorough: deep for lf, standard for crlf" % (QUICK_LEVEL,)}
+                  "levels (0 reduced, 1 standard, 2 deep)": "quick: %r for lf, 0 for crlf (6 representative formats); thorough: %r for lf, 1 for crlf"
+                  % (QUICK_LEVEL, THOROUGH_LEVEL)}
     warnings.filterwarnings("ignore")
     logging.disable(logging.WARNING)
     try:
